@@ -15,7 +15,7 @@ samples from the documented lattice are run by the real reb_simulation_steps / i
 User ODEs: a forced oscillator reading particle 1 (coupled, BS) and a free oscillator (uncoupled, any integrator) are integrated
    by the reference together with the N-body system and compared the same way.
 """
-import json, math, random
+import os, sys, json, math, random
 from vf import core, gen
 
 PROPERTY = "C01"
@@ -66,8 +66,14 @@ def run_case(case):
         if tp:
             aout = max(p['a'] for p in sysd['planets'])
             tp_type = rr.choice([0, 1])
+            ain = min(p['a'] for p in sysd['planets'])
+            inner = rr.random() < 0.5          # test particles inside the innermost planet feel the planets' perturbations much more strongly than distant ones
             for k in range(rr.randint(1, 2)):
-                base.add(m=(rr.choice([0.0, 1e-6]) if tp_type == 1 else 0.0), a=aout * (1.7 + 0.5 * k), e=rr.uniform(0, 0.1), inc=rr.uniform(0, 0.1), f=rr.uniform(0, 6.28), primary=base.particles[0])
+                a_tp = ain / (1.7 + 0.4 * k) if inner else aout * (1.7 + 0.5 * k)
+                base.add(m=(rr.choice([0.0, 1e-6]) if tp_type == 1 else 0.0), a=a_tp, e=rr.uniform(0, 0.1), inc=rr.uniform(0, 0.1), f=rr.uniform(0, 6.28), primary=base.particles[0])
+                if inner:
+                    P = min(P, 2 * math.pi * math.sqrt(a_tp ** 3 / (G * mstar)))
+                    counters['systems_with_inner_testparticles'] = counters.get('systems_with_inner_testparticles', 0) + (k == 0)
             n_active = 1 + npl
         N = base.N
         m = [p.m for p in base.particles]
@@ -205,7 +211,8 @@ def run_case(case):
                 # Rein, Tamayo & Brown 2019 (documented in integrators.md): with a high-order symplectic corrector the kernels
                 # modifiedkick / lazy / composition leave an error O(eps dt^k + eps^2 dt^4), k >= 7 here: fourth order in dt for
                 # EVERY particle, test particles included (the default kernel leaves eps^2 dt^2)
-                if opts.get('ri_whfast.kernel') in ('modifiedkick', 'lazy', 'composition') and opts.get('ri_whfast.corrector') in (7, 11, 17):
+                # (second correctors are designed for the standard kernel; their combination with another kernel is not an advertised scheme)
+                if opts.get('ri_whfast.kernel') in ('modifiedkick', 'lazy', 'composition') and opts.get('ri_whfast.corrector') in (7, 11, 17) and not opts.get('ri_whfast.corrector2'):
                     pmin = 4
                     counters['whfast_fourth_order_configs'] = counters.get('whfast_fourth_order_configs', 0) + 1
                     if tp and tp_type == 0:
@@ -241,6 +248,7 @@ def run_case(case):
                 nbase = 12
             if integ == 'leapfrog':
                 nbase = 300
+            nbase *= int(os.environ.get('VERIF_C01_NMUL', '1'))        # debugging aid: finer resolutions for a replayed case
             errs = []
             nmin = int(math.ceil(abs(T) / P * 8))          # never coarser than 8 steps per inner period
             while True:
@@ -265,14 +273,18 @@ def run_case(case):
             if not errs:
                 continue
             desc = '%s %s %r errors at n=%d,x2,x4: %s' % (desc0, integ, opts, nbase, ' '.join('%.3e' % e for e in errs))
+            if os.environ.get('VERIF_C01_VERBOSE') and pmin == 4 and integ == 'whfast':
+                print(desc, 'masses', m, file=sys.stderr)
             floor = 1e-13 * max(1.0, abs(T) / P)          # reference ~1e-14, REBOUND's own rounding over these step counts ~1e-14..1e-13
             qs = []
+            lower_bounds_only = []
             strong = False
             for a_, b_ in ((0, 1), (1, 2)):
                 if errs[b_] > floor * 3 and errs[a_] > errs[b_]:
                     qs.append(math.log(errs[a_] / errs[b_], 2))          # usable pair: the finer error is still above the rounding floor
                 elif errs[a_] > floor * 30:
                     qs.append(math.log(errs[a_] / (floor * 3), 2))       # the finer run reached the floor: a lower bound of the order
+                    lower_bounds_only.append(len(qs) - 1)
                 if errs[a_] > max(floor * 30, 1e-10) and errs[b_] > floor * 3:
                     strong = True                                        # and at least one pair sits well above it
             if qs and strong:
@@ -285,19 +297,36 @@ def run_case(case):
                 qf = None
                 if errs[2] > floor * 30 and errs[1] > errs[2] and not semi0:
                     qf = math.log(errs[1] / errs[2], 2)
+                    if os.environ.get('VERIF_C01_NOTES') and qf < pcap - 1.0 and integ in ('whfast', 'saba'):
+                        with open(os.environ['VERIF_C01_NOTES'], 'a') as nf:
+                            nf.write('%.2f %s masses %r\n' % (qf, desc, m))
                     key = 'min_finest_pair_order_margin_x100:%s:p%d' % (integ, pcap)
                     counters[key] = min(counters.get(key, 10 ** 6), int((qf - pcap) * 100))
                 semi = tp and tp_type == 1 and any(q_ > 0 for q_ in m[n_active:]) and (opts.get('ri_whfast.kernel') in ('modifiedkick', 'lazy') or str(opts.get('ri_saba.type', '')).startswith(('cm', 'cl')))
-                if max(qs) < pcap - (1.0 if pcap <= 4 else 2.0):       # 6th/8th order compositions sit 1-1.7 below their order at these step sizes (measured)
+                thr = pcap - (1.0 if pcap <= 4 else 2.0)               # 6th/8th order compositions sit 1-1.7 below their order at these step sizes (measured)
+                if max(qs) < thr and lower_bounds_only:
+                    # a pair whose finer run sits at the rounding floor only bounds the order from below: the dynamic range between the
+                    # coarser error and the floor is too small to show the advertised order - not measurable, not a violation
+                    counters['order_not_resolvable_above_floor'] = counters.get('order_not_resolvable_above_floor', 0) + 1
+                elif pcap == 4 and integ in ('whfast', 'saba') and qf is not None and errs[2] > 1e-9 and qf < 2.6:
+                    # fourth-order WHFast/SABA combinations: while the error is still far above every floor (> 1e-9) the FINEST pair must show
+                    # the order too - a coarse pair dominated by a steeper eps dt^k term must not hide an eps^2 dt^2 remainder
+                    add('converge:order-below-advertised:%s' % integ, '%s: finest pair shows order %.2f with errors still above 1e-9, advertised minimum %d' % (desc, qf, pmin))
+                elif max(qs) < thr:
                     add('converge:order-below-advertised:%s%s' % (integ, ':jacobi-gravity-with-massive-semi-active-test-particles' if semi else ''), '%s: observed orders %s, advertised minimum %d' % (desc, ['%.2f' % q for q in qs], pmin))
             else:
                 counters['at_rounding_floor'] += 1
             # accuracy: finest resolution inside a class bound and never worse than the coarsest
             bound = {'leapfrog': 0.2, 'janus': 0.3 if pmin == 2 else 1e-2}.get(integ, 2e-2 if pcap == 2 else 1e-3)
-            if errs[-1] > bound:
-                add('converge:accuracy-class:%s' % integ, '%s: error at the finest resolution above %.1e' % (desc, bound))
-            if errs[-1] > 1.5 * errs[0] + floor * 10:
-                add('converge:error-grows-with-resolution:%s' % integ, desc)
+            semi_ = tp and tp_type == 1 and any(q_ > 0 for q_ in m[n_active:]) and (opts.get('ri_whfast.kernel') in ('modifiedkick', 'lazy') or str(opts.get('ri_saba.type', '')).startswith(('cm', 'cl')))
+            if semi_ and (errs[-1] > bound or errs[-1] > 1.5 * errs[0] + floor * 10):
+                # known finding (Jacobi gravity ignores N_active): the run converges to a different solution, however that shows up
+                add('converge:order-below-advertised:%s:jacobi-gravity-with-massive-semi-active-test-particles' % integ, '%s: does not converge to the reference' % desc)
+            else:
+                if errs[-1] > bound:
+                    add('converge:accuracy-class:%s' % integ, '%s: error at the finest resolution above %.1e' % (desc, bound))
+                if errs[-1] > 1.5 * errs[0] + floor * 10:
+                    add('converge:error-grows-with-resolution:%s' % integ, desc)
             # WHFast correctors: a symplectic corrector removes the periodic O(eps dt^2) part of the error; what remains grows secularly
             # and can exceed the plain map's error at particular phases.  Compared over four output times it must never be far worse
             # than the plain map (a broken corrector stage is 1e3-1e4 times worse at every time).
